@@ -71,7 +71,7 @@ def run(ctx):
     ctx.clause("C08.9 a signed length decoded from the input is sign-checked before it offsets a pointer or sizes a copy")
     from ..rules import signedoff
     nso = signedoff.check(ctx, P.funcs_in(*(DECODER_FILES + ["src/encoding/byte_stream_split.c"])))
-    ctx.floor("C08 decoded signed lengths used as offsets / sizes", nso, 2)
+    ctx.count("decoded_signed_lengths_used_as_offsets", nso)
     ctx.clause("C08.8 no bounds guard is computed in 32 bits from an unbounded input value and then compared with a 64-bit size")
     from ..rules import widen
     nwid = widen.check(ctx, DECODER_FILES + CODEC_WRAPPERS + ["src/encoding/byte_stream_split.c", "src/thrift/parquet_types.c"])
